@@ -74,6 +74,8 @@ def build_unit(name, sentinel=False, disabled_hints=(), extra_consts=()):
             from . import rules as _rules
             u.emit(rel, '%s %s' % (kind, cname), rules=([_rules.r1_r2_map_collect(0, with_decreases=True), _rules.r13_assert_eq] if kind == 'fn' else ()),
                    pre=(lambda t: re.sub(r'(?m)^((?:pub )?fn )', r'#[verifier::exec_allows_no_decreases_clause]\n\1', t, count=1)) if kind == 'fn' else None)
+            if kind == 'fn':
+                u.autosliced_fns = getattr(u, 'autosliced_fns', []) + [cname]
             u.relaxed.append('%s %s (not in the unit description) sliced from %s because the code now refers to it%s' % (
                 kind, cname, rel, '' if kind == 'const' else ' - it has no contract, callers see only its signature'))
             break
@@ -138,6 +140,7 @@ def verify_unit(name, tier='quick', seed=0, threads=8, disabled_hints=(), depth=
     r.fns = [{'key': k, 'file': f, 'lines': [a, b], 'contract': c} for (k, f, a, b, c) in u.fns]
     r.items = u.item_log
     r.relaxed = list(u.relaxed)
+    r.autosliced_fns = list(getattr(u, 'autosliced_fns', []))
     r.opaque = u.opaque
     r.notes = u.notes
     r.assumptions = scan_assumptions(text)
